@@ -611,10 +611,14 @@ def make_instance(cls, name, layout="sym", implicit=False, nops=2, child_classes
         inst = cls(args["expr"], **kw)
     elif cname == "Range":
         inst = cls(args["low"], args["high"], args["include_low"], args["include_high"], **kw)
-    elif cname in ("Fuzzy", "Proximity"):
-        inst = cls(args["term"], args["degree"], **kw)
-    elif cname == "Boost":
-        inst = cls(args["expr"], args["force"], **kw)
+    elif cname in ("Fuzzy", "Proximity", "Boost"):
+        # arranging an existing node: its constructor has returned, so its numeral did not overflow
+        from . import ext
+        ext.ARRANGING += 1
+        try:
+            inst = cls(args["term"], args["degree"], **kw) if cname != "Boost" else cls(args["expr"], args["force"], **kw)
+        finally:
+            ext.ARRANGING -= 1
     elif cname in ("Plus", "Not", "Prohibit"):
         inst = cls(args["a"], **kw)
     elif cname in ("From", "To"):
